@@ -6,3 +6,4 @@ import Dnp3.Driver.Transport
 import Dnp3.Driver.Outstation
 import Dnp3.Model.OutstationTrace
 import Dnp3.Driver.Convert
+import Dnp3.Driver.Parse
